@@ -158,10 +158,10 @@ class Verifier(Engine):
             declared = self.local_types.get(tgt.id)
             if declared is not None:
                 v = self.coerce(v, declared)
-            elif getattr(v, "empty_lit", False):
-                raise Unsupported(f"empty literal assigned to {tgt.id} without a type (add a `locals` hint)", tgt)
             elif tgt.id in st.env and st.env[tgt.id].ty != v.ty:
                 v = self.coerce(v, st.env[tgt.id].ty)
+            elif getattr(v, "empty_lit", False):
+                raise Unsupported(f"empty literal assigned to {tgt.id} without a type (add a `locals` hint)", tgt)
             st.env[tgt.id] = v
             return
         if isinstance(tgt, ast.Tuple):
